@@ -1,4 +1,5 @@
-(* Proofs/C16_Codecs.v — the concrete world of Model/C16_Codecs.v satisfies every
+(* Proofs/C16_Codecs.v — the concrete world of Model/C16_Codecs.v (eleven codecs; UTF-16/32 and charmap proofs are in
+   Proofs/C16_Utf16.v) satisfies every
    contract the abstract theorems assume:
      * UTF-8: decode (encode t) = t for every surrogate-free text (any error policy),
        and conversely a strictly decodable byte string is the encoding of its text
@@ -9,17 +10,11 @@
      * the NFKD fold driven by the generated table yields ASCII and fixes ASCII. *)
 From Coq Require Import String.
 Require Import OV.Base.Bytes OV.Base.PyInt OV.Base.Str OV.Base.C16_Py.
-Require Import OV.Gen.C16_Aliases OV.Gen.C16_Fold OV.Gen.C16_Code.
-Require Import OV.Model.C16 OV.Model.C16_Codecs OV.Proofs.C16_Slug.
+Require Import OV.Gen.C16_Aliases OV.Gen.C16_Fold OV.Gen.C16_Charmaps OV.Gen.C16_Code.
+Require Import OV.Model.C16 OV.Model.C16_Codecs OV.Proofs.C16_Slug OV.Proofs.C16_Utf16.
 Open Scope N_scope.
 
 Ltac Zify.zify_post_hook ::= Z.div_mod_to_equations.
-
-Lemma cmap_ok {A B} (f : A -> B) r y : cmap f r = COk y -> exists x, r = COk x /\ y = f x.
-Proof. destruct r as [x|e]; cbn; intros H; [injection H as <-; eauto|discriminate]. Qed.
-
-Lemma policy_strict : policy_of strict_name = Strict.
-Proof. reflexivity. Qed.
 
 (* ================= UTF-8: decode after encode ================= *)
 
@@ -68,9 +63,6 @@ Lemma utf8_dec_cons p b0 r0 : utf8_dec p (b0 :: r0) =
       end
     else on_dec_error p (utf8_dec p r0).
 Proof. reflexivity. Qed.
-
-Lemma some_inj {A} (x y : A) : Some x = Some y -> x = y.
-Proof. congruence. Qed.
 
 Lemma utf8_dec_enc1 c bs : utf8_enc1 c = Some bs ->
   forall p rest, utf8_dec p (bs ++ rest) = cmap (cons c) (utf8_dec p rest).
@@ -141,14 +133,6 @@ Proof.
 Qed.
 
 (* ================= UTF-8: encode after (strict) decode ================= *)
-
-Lemma strong_list_ind {A} (P : list A -> Prop) :
-  (forall l, (forall l', (length l' < length l)%nat -> P l') -> P l) -> forall l, P l.
-Proof.
-  intros H l. assert (G : forall n l, (length l < n)%nat -> P l).
-  { induction n as [|n IH]; intros l' Hl; [lia|]. apply H. intros l'' Hl''. apply IH. lia. }
-  apply (G (S (length l))). lia.
-Qed.
 
 Ltac dec_step IH :=
   match goal with
@@ -262,49 +246,60 @@ Qed.
 
 (* ================= the contracts, for the concrete world ================= *)
 
+Lemma utf8_enc_strict_valid t : forall b, utf8_enc Strict t = COk b -> valid_text t = true.
+Proof.
+  induction t as [|c t IH]; intros b H; [reflexivity|].
+  cbn [utf8_enc] in H. destruct (utf8_enc1 c) as [bs|] eqn:E1; [|discriminate].
+  destruct (cmap_ok _ _ _ H) as (b' & E & _). rewrite valid_text_cons, (IH _ E), andb_true_r.
+  unfold utf8_enc1 in E1. unfold scalar.
+  destruct (c <? 128) eqn:?; [lia|]. destruct (c <? 2048) eqn:?; [lia|].
+  destruct (c <? 65536) eqn:?.
+  - destruct ((55296 <=? c) && (c <=? 57343)) eqn:?; [discriminate|lia].
+  - destruct (c <? 1114112) eqn:?; [lia|discriminate].
+Qed.
+
 Theorem world3_enc_policy_irrelevant d c : enc_policy_irrelevant (world3 d) c.
 Proof.
-  intros t errs b. cbn [enc world3]. unfold enc3. rewrite policy_strict. destruct c; intros H.
+  intros t errs b. cbn [enc world3]. unfold enc3. rewrite policy_strict. cbv zeta. destruct c; intros H.
   - apply utf8_enc_strict_any. exact H.
   - destruct (narrow_enc_strict_any _ _ _ H) as (-> & _ & Hp). apply Hp.
   - destruct (narrow_enc_strict_any _ _ _ H) as (-> & _ & Hp). apply Hp.
+  - unfold utf16_bom_enc in *. destruct (cmap_ok _ _ _ H) as (b' & E & ->).
+    rewrite (proj2 (utf16_enc_strict_any _ _ _ E)). reflexivity.
+  - apply (utf16_enc_strict_any _ _ _ H).
+  - apply (utf16_enc_strict_any _ _ _ H).
+  - unfold utf32_bom_enc in *. destruct (cmap_ok _ _ _ H) as (b' & E & ->).
+    rewrite (proj2 (utf32_enc_strict_any _ _ _ E)). reflexivity.
+  - apply (utf32_enc_strict_any _ _ _ H).
+  - apply (utf32_enc_strict_any _ _ _ H).
+  - apply (charmap_enc_strict_any _ _ _ H).
+  - apply (charmap_enc_strict_any _ _ _ H).
 Qed.
 
 Theorem world3_dec_policy_irrelevant d c : dec_policy_irrelevant (world3 d) c.
 Proof.
-  intros b errs t. cbn [dec world3]. unfold dec3. rewrite policy_strict. destruct c; intros H.
+  intros b errs t. cbn [dec world3]. unfold dec3. rewrite policy_strict. cbv zeta. destruct c; intros H.
   - apply utf8_dec_strict_any. exact H.
   - exact H.
   - apply ascii_dec_strict_any. exact H.
+  - apply utf16_bom_dec_strict_any. exact H.
+  - apply (utf16_dec_strict_canonical _ _ _ H).
+  - apply (utf16_dec_strict_canonical _ _ _ H).
+  - apply utf32_bom_dec_strict_any. exact H.
+  - apply (utf32_dec_strict_canonical _ _ _ H).
+  - apply (utf32_dec_strict_canonical _ _ _ H).
+  - apply (charmap_dec_strict_canonical _ _ _ H).
+  - apply (charmap_dec_strict_canonical _ _ _ H).
 Qed.
 
-Theorem world3_codec_roundtrip d c : codec_roundtrip (world3 d) c.
-Proof.
-  intros t b. cbn [enc dec world3]. unfold enc3, dec3. rewrite policy_strict. destruct c; intros H.
-  - (* UTF-8: a strict encoding exists only for surrogate-free text *)
-    assert (Hv : valid_text t = true).
-    { clear -H. revert b H. induction t as [|c t IH]; intros b H; [reflexivity|].
-      cbn [utf8_enc] in H. destruct (utf8_enc1 c) as [bs|] eqn:E1; [|discriminate].
-      destruct (cmap_ok _ _ _ H) as (b' & E & _). change (valid_text (c :: t)) with (scalar c && valid_text t). rewrite (IH _ E), andb_true_r.
-      unfold utf8_enc1 in E1. unfold scalar.
-      destruct (c <? 128) eqn:?; [lia|]. destruct (c <? 2048) eqn:?; [lia|].
-      destruct (c <? 65536) eqn:?.
-      - destruct ((55296 <=? c) && (c <=? 57343)) eqn:?; [discriminate|lia].
-      - destruct (c <? 1114112) eqn:?; [lia|discriminate]. }
-    destruct (utf8_roundtrip t Hv) as (b' & He & Hd). rewrite (He Strict) in H. injection H as <-. apply Hd.
-  - destruct (narrow_enc_strict_any _ _ _ H) as (-> & _ & _). reflexivity.
-  - destruct (narrow_enc_strict_any _ _ _ H) as (-> & Hall & _). apply ascii_dec_id. exact Hall.
-Qed.
-
-Lemma world3_dec_empty d c : dec (world3 d) c [] strict_name = COk [].
-Proof. destruct c; reflexivity. Qed.
-
-(* what each of the three codecs can represent *)
+(* what each codec can represent *)
 Definition representable3 (c : codec_id) (t : str) : bool :=
   match c with
-  | CUtf8 => valid_text t
   | CLatin1 => forallb (fun x => x <? 256) t
   | CAscii => forallb (fun x => x <? 128) t
+  | CCp1252 => charmap_repr cp1252_table t
+  | CKoi8R => charmap_repr koi8r_table t
+  | _ => valid_text t
   end.
 
 Lemma narrow_enc_ok lim p s : forallb (fun c => c <? lim) s = true -> narrow_enc lim p s = COk s.
@@ -313,13 +308,119 @@ Proof.
   destruct H as [Hc Ht]. cbn [narrow_enc]. rewrite Hc, (IH Ht). reflexivity.
 Qed.
 
+(* every codec: for representable text, encoding succeeds and decoding gives the text back, whatever the policies *)
+Theorem enc3_dec3_roundtrip c t : representable3 c t = true ->
+  exists b, (forall e, enc3 c t e = COk b) /\ (forall e, dec3 c b e = COk t).
+Proof.
+  intros H. unfold enc3, dec3. cbv zeta. destruct c; cbn [representable3] in H.
+  - destruct (utf8_roundtrip t H) as (b & He & Hd). exists b. split; intros e; [apply He|apply Hd].
+  - exists t. split; intros e; [apply narrow_enc_ok; exact H|reflexivity].
+  - exists t. split; intros e; [apply narrow_enc_ok; exact H|apply ascii_dec_id; exact H].
+  - destruct (utf16_bom_roundtrip t H) as (b & He & Hd). exists b. split; intros e; [apply He|apply Hd].
+  - destruct (utf16_roundtrip true t H) as (b & He & Hd). exists b. split; intros e; [apply He|apply Hd].
+  - destruct (utf16_roundtrip false t H) as (b & He & Hd). exists b. split; intros e; [apply He|apply Hd].
+  - destruct (utf32_bom_roundtrip t H) as (b & He & Hd). exists b. split; intros e; [apply He|apply Hd].
+  - destruct (utf32_roundtrip true t H) as (b & He & Hd). exists b. split; intros e; [apply He|apply Hd].
+  - destruct (utf32_roundtrip false t H) as (b & He & Hd). exists b. split; intros e; [apply He|apply Hd].
+  - destruct (charmap_roundtrip _ t H) as (b & He & Hd). exists b. split; intros e; [apply He|apply Hd].
+  - destruct (charmap_roundtrip _ t H) as (b & He & Hd). exists b. split; intros e; [apply He|apply Hd].
+Qed.
+
+(* a strict encoding exists exactly for representable text *)
+Lemma enc3_strict_representable c t b : enc3 c t strict_name = COk b -> representable3 c t = true.
+Proof.
+  unfold enc3. rewrite policy_strict. cbv zeta. destruct c; cbn [representable3]; intros H.
+  - apply (utf8_enc_strict_valid _ _ H).
+  - apply (narrow_enc_strict_any _ _ _ H).
+  - apply (narrow_enc_strict_any _ _ _ H).
+  - unfold utf16_bom_enc in H. destruct (cmap_ok _ _ _ H) as (b' & E & _). apply (utf16_enc_strict_any _ _ _ E).
+  - apply (utf16_enc_strict_any _ _ _ H).
+  - apply (utf16_enc_strict_any _ _ _ H).
+  - unfold utf32_bom_enc in H. destruct (cmap_ok _ _ _ H) as (b' & E & _). apply (utf32_enc_strict_any _ _ _ E).
+  - apply (utf32_enc_strict_any _ _ _ H).
+  - apply (utf32_enc_strict_any _ _ _ H).
+  - apply (charmap_enc_strict_any _ _ _ H).
+  - apply (charmap_enc_strict_any _ _ _ H).
+Qed.
+
+Theorem world3_codec_roundtrip d c : codec_roundtrip (world3 d) c.
+Proof.
+  intros t b. cbn [enc dec world3]. intros H.
+  destruct (enc3_dec3_roundtrip c t (enc3_strict_representable _ _ _ H)) as (b' & He & Hd).
+  rewrite He in H. injection H as <-. apply Hd.
+Qed.
+
+Lemma world3_dec_empty d c : dec (world3 d) c [] strict_name = COk [].
+Proof. destruct c; reflexivity. Qed.
+
 Theorem world3_represents d c t : representable3 c t = true -> representsb (world3 d) c t = true.
 Proof.
-  intros H. unfold representsb. cbn [enc dec world3]. unfold enc3, dec3. rewrite policy_strict.
-  destruct c; cbn [representable3] in H.
-  - destruct (utf8_roundtrip t H) as (b & He & Hd). rewrite He, Hd. apply beq_refl.
-  - rewrite (narrow_enc_ok _ _ _ H). apply beq_refl.
-  - rewrite (narrow_enc_ok _ _ _ H), (ascii_dec_id _ _ H). apply beq_refl.
+  intros H. unfold representsb. cbn [enc dec world3].
+  destruct (enc3_dec3_roundtrip c t H) as (b & He & Hd). rewrite He, Hd. apply beq_refl.
+Qed.
+
+(* ---------- re-encoding what was decoded ----------
+   The codecs without BOM are canonical: a byte string (values below 256) that decodes under 'strict'
+   is exactly the strict encoding of its text.  The BOM-writing 'utf-16' / 'utf-32' are not (the decoder
+   accepts either byte order and a missing BOM, the encoder always writes a native-order BOM): there
+   re-encoding preserves the text, not the bytes. *)
+Definition canonical3 (c : codec_id) : bool :=
+  match c with CUtf16 | CUtf32 => false | _ => true end.
+
+Lemma narrow_enc_bytes lim b : forallb (fun c => c <? lim) b = true -> narrow_enc lim Strict b = COk b.
+Proof. apply narrow_enc_ok. Qed.
+
+Lemma ascii_dec_strict_bytes b : forall t, ascii_dec Strict b = COk t -> t = b /\ forallb (fun c => c <? 128) b = true.
+Proof.
+  induction b as [|x r IH]; intros t H; [injection H as <-; split; reflexivity|].
+  cbn [ascii_dec] in H. destruct (x <? 128) eqn:E; [|discriminate].
+  destruct (cmap_ok _ _ _ H) as (t' & E' & ->). destruct (IH _ E') as [-> Hall].
+  split; [reflexivity|]. cbn [forallb]. rewrite E, Hall. reflexivity.
+Qed.
+
+Theorem enc3_after_dec3 c b t : canonical3 c = true -> all_bytes b = true ->
+  dec3 c b strict_name = COk t -> enc3 c t strict_name = COk b.
+Proof.
+  unfold enc3, dec3. rewrite policy_strict. cbv zeta. destruct c; cbn [canonical3]; intros Hc Hb H; try discriminate.
+  - apply (utf8_dec_strict_canonical _ _ H).
+  - injection H as <-. apply narrow_enc_ok. exact Hb.
+  - destruct (ascii_dec_strict_bytes _ _ H) as [-> Hall]. apply narrow_enc_ok. exact Hall.
+  - apply (proj2 (utf16_dec_strict_canonical _ _ _ H) Hb).
+  - apply (proj2 (utf16_dec_strict_canonical _ _ _ H) Hb).
+  - apply (proj2 (utf32_dec_strict_canonical _ _ _ H) Hb).
+  - apply (proj2 (utf32_dec_strict_canonical _ _ _ H) Hb).
+  - apply (proj2 (charmap_dec_strict_canonical _ _ _ H) cp1252_table_inj).
+  - apply (proj2 (charmap_dec_strict_canonical _ _ _ H) koi8r_table_inj).
+Qed.
+
+(* whatever a codec strictly decodes (from bytes) is text it can represent *)
+Lemma dec3_strict_representable c b t : all_bytes b = true -> dec3 c b strict_name = COk t -> representable3 c t = true.
+Proof.
+  unfold dec3. rewrite policy_strict. cbv zeta. intros Hb H. destruct c; cbn [representable3].
+  - apply (utf8_dec_strict_canonical _ _ H).
+  - injection H as <-. exact Hb.
+  - destruct (ascii_dec_strict_bytes _ _ H) as [-> Hall]. exact Hall.
+  - unfold utf16_bom_dec in H. destruct b as [|b0 [|b1 r]];
+      try (apply (proj2 (utf16_dec_strict_canonical _ _ _ H) Hb)).
+    assert (Hr : all_bytes r = true).
+    { rewrite !all_bytes_cons in Hb. apply andb_true_iff in Hb. destruct Hb as [_ Hb]. apply andb_true_iff in Hb. apply Hb. }
+    destruct ((b0 =? 255) && (b1 =? 254)); [apply (proj2 (utf16_dec_strict_canonical _ _ _ H) Hr)|].
+    destruct ((b0 =? 254) && (b1 =? 255)); [apply (proj2 (utf16_dec_strict_canonical _ _ _ H) Hr)|].
+    apply (proj2 (utf16_dec_strict_canonical _ _ _ H) Hb).
+  - apply (proj2 (utf16_dec_strict_canonical _ _ _ H) Hb).
+  - apply (proj2 (utf16_dec_strict_canonical _ _ _ H) Hb).
+  - unfold utf32_bom_dec in H. destruct b as [|b0 [|b1 [|b2 [|b3 r]]]];
+      try (apply (proj2 (utf32_dec_strict_canonical _ _ _ H) Hb)).
+    assert (Hr : all_bytes r = true).
+    { rewrite !all_bytes_cons in Hb. apply andb_true_iff in Hb. destruct Hb as [_ Hb]. apply andb_true_iff in Hb. destruct Hb as [_ Hb].
+      apply andb_true_iff in Hb. destruct Hb as [_ Hb]. apply andb_true_iff in Hb. apply Hb. }
+    destruct ((b0 =? 255) && (b1 =? 254) && (b2 =? 0) && (b3 =? 0)); [apply (proj2 (utf32_dec_strict_canonical _ _ _ H) Hr)|].
+    destruct ((b0 =? 0) && (b1 =? 0) && (b2 =? 254) && (b3 =? 255)); [apply (proj2 (utf32_dec_strict_canonical _ _ _ H) Hr)|].
+    apply (proj2 (utf32_dec_strict_canonical _ _ _ H) Hb).
+  - apply (proj2 (utf32_dec_strict_canonical _ _ _ H) Hb).
+  - apply (proj2 (utf32_dec_strict_canonical _ _ _ H) Hb).
+  - apply (proj2 (charmap_dec_strict_canonical _ _ _ H) cp1252_table_inj).
+  - apply (proj2 (charmap_dec_strict_canonical _ _ _ H) koi8r_table_inj).
 Qed.
 
 (* ================= codec-name lookup and letter case ================= *)
@@ -342,6 +443,29 @@ Theorem lookup3_lower name : forallb is_ascii name = true -> lookup3 (py_lower n
 Proof.
   intros H. rewrite (py_lower_ascii _ H). unfold lookup3, norm_name. rewrite norm_go_lower. reflexivity.
 Qed.
+
+(* lookup depends only on the ASCII-lower-cased name ... *)
+Theorem lookup3_case a b : lower_ascii a = lower_ascii b -> lookup3 a = lookup3 b.
+Proof.
+  intros H. unfold lookup3, norm_name. rewrite <- (norm_go_lower a), <- (norm_go_lower b), H. reflexivity.
+Qed.
+
+(* ... and not on WHICH separator is written between the alphanumeric parts: '-', '_', ' ' (any character other
+   than [A-Za-z0-9.]) are interchangeable, e.g. utf-8 / utf_8 / "utf 8" *)
+Definition is_sep (c : N) : bool := negb (is_alnum_ascii c || (c =? 46)).
+Definition same_but_seps (a b : str) : Prop :=
+  Forall2 (fun x y => x = y \/ (is_sep x = true /\ is_sep y = true)) a b.
+
+Lemma norm_go_seps a b : same_but_seps a b -> forall p st, norm_go a p st = norm_go b p st.
+Proof.
+  induction 1 as [|x y a b Hxy _ IH]; intros p st; [reflexivity|].
+  destruct Hxy as [->|[Hx Hy]].
+  - cbn [norm_go]. rewrite !IH. reflexivity.
+  - cbn [norm_go]. unfold is_sep in Hx, Hy. apply negb_true_iff in Hx, Hy. rewrite Hx, Hy. apply IH.
+Qed.
+
+Theorem lookup3_seps a b : same_but_seps a b -> lookup3 a = lookup3 b.
+Proof. intros H. unfold lookup3, norm_name. rewrite (norm_go_seps a b H). reflexivity. Qed.
 
 Lemma lookup3_nonempty name c : lookup3 name = Some c -> name <> [].
 Proof. intros H ->. vm_compute in H. discriminate. Qed.
